@@ -890,6 +890,66 @@ func ruleACells(w *World, r *Report) {
 			r.ok("A-CELLS", "prim-nopanic:"+p.Name(), w.pos(p.Pos()), "no panic")
 		}
 	}
+	// (6) no index or slice expression of the comparison code (the cells and the
+	// plain functions they call, directly or through each other) can be out of
+	// range: "a comparison never aborts evaluation because of the data found"
+	scope := map[*ssa.Function]bool{}
+	var visit func(f *ssa.Function, d int)
+	visit = func(f *ssa.Function, d int) {
+		if f == nil || scope[f] || d > 4 || !w.inPkg(f) || len(f.Blocks) == 0 {
+			return
+		}
+		if f.Signature.Recv() != nil && w.isQueryType(f.Signature.Recv().Type()) {
+			return
+		}
+		scope[f] = true
+		eachInstr(f, true, func(_ *ssa.Function, in ssa.Instruction) {
+			if c, ok := in.(ssa.CallInstruction); ok {
+				visit(c.Common().StaticCallee(), d+1)
+			}
+		})
+	}
+	for _, row := range tab.Cells {
+		for _, cell := range row {
+			if cell != nil {
+				visit(w.Prog.FuncValue(cell), 0)
+			}
+		}
+	}
+	var fns []*ssa.Function
+	for f := range scope {
+		fns = append(fns, f)
+	}
+	sort.Slice(fns, func(i, j int) bool { return fnName(fns[i]) < fnName(fns[j]) })
+	be := &boundsEngine{w: w, memo: map[ssa.Value]bnd{}, busy: map[ssa.Value]bool{}}
+	nsites := 0
+	for _, f := range fns {
+		eachInstr(f, true, func(_ *ssa.Function, in ssa.Instruction) {
+			ok, why, is := true, "", false
+			switch x := in.(type) {
+			case *ssa.IndexAddr:
+				ok, why = be.indexOK(x.X, x.Index, x.Block())
+				is = true
+			case *ssa.Index:
+				ok, why = be.indexOK(x.X, x.Index, x.Block())
+				is = true
+			case *ssa.Slice:
+				ok, why = be.sliceOK(x)
+				is = true
+			}
+			if !is {
+				return
+			}
+			nsites++
+			key := "bounds:" + fnName(f)
+			if ok {
+				r.ok("A-CELLS", key, w.instrPos(in), why)
+			} else {
+				r.bad("A-CELLS", key, w.instrPos(in), fmt.Sprintf("an index or slice expression of the comparison code is not proven in range (%s): a comparison aborts the evaluation because of a value found in the document", why))
+			}
+		})
+	}
+	r.note("A-CELLS: %d index/slice sites in %d functions of the comparison code", nsites, len(fns))
 }
 
 func (w *World) checkExistential(r *Report, key string, fn *ssa.Function, prims map[*ssa.Function]bool, both bool) {
